@@ -1496,7 +1496,8 @@ def convert_mul_max_to_abs_or_lrelu(op: Operation, arch, nng) -> Operation:
         else:
             return op
 
-        val = const.outputs[0].values
+        # the slope that the constant denotes (its quantised value alone does not tell)
+        val = const_tens.quantization.dequantize(const.outputs[0].values)
         if val >= 0:
             new_op = Op.LeakyRelu
             op.attrs["alpha"] = val
@@ -1509,8 +1510,7 @@ def convert_mul_max_to_abs_or_lrelu(op: Operation, arch, nng) -> Operation:
             mul_ofm_scale = np.double(mul_ofm.quantization.scale_f32)
             alpha_scale, alpha_shift = scaling.elementwise_mul_scale(mul_ifm_scale, mul_ifm2_scale, mul_ofm_scale)
             op.attrs["alpha_scaling"] = (alpha_scalar, alpha_scale, alpha_shift)
-        elif const_tens.quantization.dequantize(val) == -1:
-            # the slope constant denotes -1 (its quantised value alone does not tell)
+        elif val == -1:
             new_op = Op.Abs
         else:
             return op
